@@ -62,6 +62,7 @@ type Node struct {
 	SnapStore                   *snapshots.Store
 	snapDB                      db.DB
 	snapDir                     string
+	preApp                      db.DB
 	Dead                        bool // a panic was observed: instance state undefined
 	cancel                      context.CancelFunc
 }
@@ -139,10 +140,22 @@ func (n *Node) open() {
 	ctx, cancel := context.WithCancel(context.Background())
 	n.cancel = cancel
 	// The constructor opens the app DB itself; E7 wraps it right after (the constructor only reads).
-	n.App = minter.NewMinterBlockchain(st, cfg, ctx, opts.StakePeriod, opts.ExpirePeriod, tmlog.NewNopLogger())
+	var lg tmlog.Logger = tmlog.NewNopLogger()
+	if os.Getenv("VERIF_LOG") != "" {
+		lg = tmlog.NewFilter(tmlog.NewTMLogger(os.Stderr), tmlog.AllowError())
+	}
+	n.App = minter.NewMinterBlockchain(st, cfg, ctx, opts.StakePeriod, opts.ExpirePeriod, lg)
 	n.rawApp = n.App.VerifAppDB().VerifDB()
+	if n.preApp != nil {
+		// memdb "restart": the constructor opened a fresh, empty app DB; put the surviving one in its place (nothing was read yet but zeros)
+		n.rawApp = n.preApp
+	}
+	base := n.rawApp
 	if opts.Wrap != nil {
-		n.App.VerifAppDB().VerifWrapDB(func(d db.DB) db.DB { return opts.Wrap("app", d) })
+		w := opts.Wrap("app", base)
+		n.App.VerifAppDB().VerifWrapDB(func(db.DB) db.DB { return w })
+	} else if n.preApp != nil {
+		n.App.VerifAppDB().VerifWrapDB(func(db.DB) db.DB { return base })
 	}
 	// statistics stay nil: the node handles a nil *statistics.Data (no consumer goroutine runs here)
 	if !opts.NilTmNode {
@@ -450,7 +463,13 @@ func (n *Node) DiskState(h uint64) (*state.CheckState, error) {
 }
 
 // LastVersion is the newest IAVL version on disk (equals the height unless the chain started at height 1).
-func (n *Node) LastVersion() uint64 {
+func (n *Node) LastVersion() (v uint64) {
+	defer func() {
+		if r := recover(); r != nil {
+			// no deliver state yet (fresh process before its first BeginBlock): the app DB knows the height
+			v = n.App.VerifAppDB().GetLastHeight()
+		}
+	}()
 	vs := n.App.AvailableVersions()
 	if len(vs) == 0 {
 		return 0
@@ -517,15 +536,25 @@ func (n *Node) Image() *MemImage {
 }
 
 // Boot starts a new application instance over a private copy of the image (like a restart from identical disks).
-func (im *MemImage) Boot() *Node {
+func (im *MemImage) Boot() *Node { return im.BootWrapped(nil) }
+
+// BootWrapped boots a private copy of the image with the given store wrapper (fault injection).
+func (im *MemImage) BootWrapped(wrap func(store string, d db.DB) db.DB) *Node {
 	n := &Node{Opts: im.Opts}
-	n.rawState, n.rawEvents = copyMem(im.State), copyMem(im.Events)
-	n.Opts.Wrap = nil
+	n.Opts.Dir = ""
+	n.Opts.Wrap = wrap
 	n.Opts.SnapshotInterval = 0
-	// the constructor opens its own (empty) app DB; swap the copied one in before anything is read again
-	app := copyMem(im.App)
+	n.rawState, n.rawEvents, n.preApp = copyMem(im.State), copyMem(im.Events), copyMem(im.App)
 	n.open()
-	n.App.VerifAppDB().VerifWrapDB(func(db.DB) db.DB { return app })
-	n.rawApp = app
 	return n
+}
+
+// RebootSame starts a new application instance over the SAME memdb objects (what a restarted process finds on disk).
+func (n *Node) RebootSame() *Node {
+	m := &Node{Opts: n.Opts}
+	m.Opts.Wrap = nil
+	m.rawState, m.rawEvents, m.preApp = n.rawState, n.rawEvents, n.rawApp
+	m.snapDB, m.snapDir = n.snapDB, n.snapDir
+	m.open()
+	return m
 }
